@@ -207,6 +207,13 @@ class Intervals:
                 return ("l",) + r if r else ("i", l)
             if rv["k"] == "use" and flow.op_place(rv["op"]) and flow.op_place(rv["op"])[1] == ():
                 return self.sym(rv["op"], depth + 1)
+            if rv["k"] == "use" and rv["op"]["k"] in ("copy", "move") and flow.op_place(rv["op"]) and flow.op_place(rv["op"])[1] != () \
+                    and not any(e["k"] in ("index", "cindex", "subslice") for e in rv["op"]["place"]["p"]):
+                # a temporary holding a copy of a member: named after the member (relations about it are dropped when the
+                # member is written, rel_kill)
+                l2, p2 = flow.op_place(rv["op"])
+                if any(isinstance(x, str) and not x.isdigit() for x in p2):
+                    return ("i", l2) + tuple(str(x) for x in p2)
         return ("i", l)
 
     def root(self, op, depth=0):
@@ -256,11 +263,13 @@ class Intervals:
         return kind == "le" and ("le", a, b) in rel
 
     @staticmethod
-    def rel_kill(st, local):
+    def rel_kill(st, local, path=None):
+        """forget the relations about a local (and every member of it), or about one member and what is inside it"""
         rel = st.get(("rel",))
         if rel:
-            k = ("i", local)
-            st[("rel",)] = frozenset(r for r in rel if r[1] != k and r[2] != k)
+            k = ("i", local) + (tuple(str(x) for x in path) if path else ())
+            hit = lambda s_: isinstance(s_, tuple) and s_[:len(k)] == k
+            st[("rel",)] = frozenset(r for r in rel if not hit(r[1]) and not hit(r[2]))
 
     # ---------------- transfer
     def _assign(self, st, s):
@@ -269,6 +278,8 @@ class Intervals:
         k = rv["k"]
         key_i = ("i", l) + tuple(str(x) for x in p)
         key_l = ("l", l) + tuple(str(x) for x in p)
+        if p != ():
+            self.rel_kill(st, l, p)
         if p == ():
             # whole-local write: forget sub-facts
             for v in [v for v in st if len(v) > 2 and v[0] in ("i", "l") and v[1] == l]:
@@ -307,6 +318,10 @@ class Intervals:
                 st[key_i] = self.iv_operand(st, op)
                 st[key_l] = self.len_operand(st, op)
         elif k in ("ref", "rawptr"):
+            if rv.get("mut", k == "rawptr"):
+                # whoever receives the mutable borrow may write the place: what was known about its members is dropped
+                bl, bp = flow.norm_place(rv["place"])
+                self.rel_kill(st, bl, bp)
             op = {"k": "copy", "place": rv["place"]}
             st[key_l] = self.len_operand(st, op)
             st[key_i] = self.iv_operand(st, op)
@@ -574,6 +589,31 @@ class Intervals:
                     hops += 1
         return st
 
+    def _chunk_presence(self, st, discr_local, value):
+        """`s.first_chunk::<N>()` / `split_first_chunk::<N>()` is Some exactly when len(s) >= N: refine the length on the edge
+        of the discriminant test"""
+        d = self.du.single_def(discr_local)
+        if not (d and d[0] == "assign" and d[4]["k"] == "discr"):
+            return
+        ol, op_ = flow.norm_place(d[4]["place"])
+        if op_ != ():
+            return
+        dc = self.du.single_def(ol)
+        if not (dc and dc[0] == "call" and names.call_is(dc[4], "slice::first_chunk", "slice::split_first_chunk", "slice::last_chunk", "slice::split_last_chunk")):
+            return
+        ga = [g.strip() for g in (dc[4].get("gargs") or [])]
+        if not ga or not ga[-1].isdigit():
+            return
+        n = int(ga[-1])
+        r = self.root(dc[4]["args"][0])
+        if not r:
+            return
+        key = ("l",) + r
+        cur = st.get(key, Iv(0, LEN_MAX))
+        m = cur.meet(Iv(n, LEN_MAX)) if value == 1 else cur.meet(Iv(0, n - 1))
+        if not m.empty():
+            st[key] = m
+
     def _propagate_len_alias(self, st, int_local, iv):
         """if int_local was computed as the length of slice locals, refine those lengths"""
         d = self.du.single_def(int_local)
@@ -661,6 +701,7 @@ class Intervals:
                             st2 = st.copy()
                             st2[("i", pl[0])] = Iv(v, v)
                             self._propagate_len_alias(st2, pl[0], Iv(v, v))
+                            self._chunk_presence(st2, pl[0], v)
                         except ValueError:
                             pass
                     outs.append((sc, st2))
